@@ -51,9 +51,20 @@ pub struct System {
     pub tables: Vec<Vec<Vec<u64>>>,
     pub ctls: Vec<Ctl>,
     pub degree: usize,
+    /// a looking table of constraint degree 2 (only a table whose running sums all go through helper columns, i.e. one
+    /// that is repeated among the looking sides, can have it: without helpers the last-row check is of degree 3)
+    #[serde(default)]
+    pub deg2: Option<usize>,
 }
 
 impl System {
+    /// the degree handed to `get_ctl_data` (helper columns batch `degree - 1` looking entries)
+    pub fn ctl_degree(&self) -> usize {
+        if self.deg2.is_some() { 2 } else { self.degree }
+    }
+    pub fn table_degree(&self, t: usize) -> usize {
+        if self.deg2 == Some(t) { 2 } else { self.degree }
+    }
     fn side_rows(&self, s: &Side) -> Vec<Vec<u64>> {
         self.tables[s.table].iter().filter(|r| s.filter.map_or(true, |f| r[f] == 1)).map(|r| s.cols.iter().map(|c| r[*c]).collect()).collect()
     }
@@ -99,7 +110,7 @@ impl System {
             }
         }
         let constraints = fs.iter().map(|f| Cons { kind: Kind::All, poly: vec![Term { coef: 1, vars: vec![Var::L(*f), Var::L(*f)] }, Term { coef: rm::P - 1, vars: vec![Var::L(*f)] }] }).collect();
-        Def { cols: COLS, pis: PIS, constraints, degree: self.degree, lookups: vec![], ctl: true }
+        Def { cols: COLS, pis: PIS, constraints, degree: self.table_degree(t), lookups: vec![], ctl: true }
     }
 }
 
@@ -118,11 +129,15 @@ pub fn gen_system(r: &mut Rng, n_tables: usize) -> System {
     let others: Vec<usize> = (0..n_tables).filter(|t| *t != looked_t).collect();
     let width = r.range(1, 2);
     let mut ctls = Vec::new();
+    let mut deg2: Option<usize> = None;
     match if width == 1 { r.below(3) } else { 0 } {
         1 => {
             // a looking table that appears twice in the same lookup (two column sets, two filters): helper columns
             let mut looking: Vec<Side> = others.iter().map(|t| Side { table: *t, cols: vec![0], filter: Some(2) }).collect();
             let t = *r.pick(&others);
+            if r.chance(1, 2) {
+                deg2 = Some(t);
+            }
             looking.push(Side { table: t, cols: vec![1], filter: Some(3) });
             // sides of the same table must be adjacent: the prover groups looking tables with a
             // consecutive group_by, the verifier by table (observed: a non-adjacent repetition is not provable)
@@ -183,8 +198,8 @@ pub fn gen_system(r: &mut Rng, n_tables: usize) -> System {
             }
         }
     }
-    // cross-table lookup constraints are of degree 3
-    System { log_ns, tables, ctls, degree: 3 }
+    // cross-table lookup constraints are of degree 3; the repeated looking table may be of degree 2
+    System { log_ns, tables, ctls, degree: 3, deg2 }
 }
 
 pub struct MultiProof {
@@ -268,11 +283,11 @@ pub fn multi_prove_with<const N: usize>(sys: &System, cfg: &StarkConfig, own_ctl
                     .iter()
                     .map(|g| {
                         let sides: Vec<&Side> = g.iter().map(|i| &c.looking[*i]).collect();
-                        let (h, z) = group_columns(sys, &sides, ch.beta, ch.gamma, sys.degree);
+                        let (h, z) = group_columns(sys, &sides, ch.beta, ch.gamma, sys.ctl_degree());
                         (sides[0].table, g.clone(), h, z)
                     })
                     .collect();
-                let (_, looked_z) = group_columns(sys, &[&c.looked], ch.beta, ch.gamma, sys.degree);
+                let (_, looked_z) = group_columns(sys, &[&c.looked], ch.beta, ch.gamma, sys.ctl_degree());
                 if shift_looking {
                     use plonky2::field::types::Field;
                     let total: F = computed.iter().map(|x| x.3[0]).sum();
@@ -299,7 +314,7 @@ pub fn multi_prove_with<const N: usize>(sys: &System, cfg: &StarkConfig, own_ctl
                 ch2.observe_cap(&c.merkle_tree.cap);
             }
             let traces_arr: [Vec<PolynomialValues<F>>; N] = to_arr(traces.clone());
-            let (_c, d) = get_ctl_data::<F, C, D, N>(cfg, &traces_arr, &ctls, &mut ch2, sys.degree);
+            let (_c, d) = get_ctl_data::<F, C, D, N>(cfg, &traces_arr, &ctls, &mut ch2, sys.ctl_degree());
             lib_data = d;
             &lib_data
         };
@@ -339,7 +354,7 @@ fn multi_prove_old<const N: usize>(sys: &System, cfg: &StarkConfig) -> Result<Mu
         }
         let ctls: Vec<CrossTableLookup<F>> = sys.ctls.iter().map(|c| CrossTableLookup::new(c.looking.iter().map(twc).collect(), twc(&c.looked))).collect();
         let traces_arr: [Vec<PolynomialValues<F>>; N] = to_arr(traces.clone());
-        let (ctl_challenges, ctl_data) = get_ctl_data::<F, C, D, N>(cfg, &traces_arr, &ctls, &mut challenger, sys.degree);
+        let (ctl_challenges, ctl_data) = get_ctl_data::<F, C, D, N>(cfg, &traces_arr, &ctls, &mut challenger, sys.ctl_degree());
         let mut proofs = Vec::new();
         for t in 0..N {
             let mut ch = challenger.clone();
@@ -435,7 +450,7 @@ fn exec_n<const N: usize>(case: &Case, rep: &mut Report) {
         rep.skip("harness: generated multi-table system does not satisfy its lookups");
         return;
     }
-    let base_sig = hash_value(&json!([sys.log_ns, sys.ctls, sys.degree])) ^ hash_str(&scfg.class()) ^ fnv(&sys.tables.iter().flatten().flatten().flat_map(|x| x.to_le_bytes()).collect::<Vec<u8>>());
+    let base_sig = hash_value(&json!([sys.log_ns, sys.ctls, sys.degree, sys.deg2])) ^ hash_str(&scfg.class()) ^ fnv(&sys.tables.iter().flatten().flatten().flat_map(|x| x.to_le_bytes()).collect::<Vec<u8>>());
     rep.probe(&format!("c10.ctl.tables.{N}"));
     rep.probe(&format!("c10.ctl.lookups.{}", sys.ctls.len()));
     rep.probe(&format!("c10.ctl.challenges.{}", scfg.num_challenges));
@@ -444,6 +459,9 @@ fn exec_n<const N: usize>(case: &Case, rep: &mut Report) {
     }
     if sys.ctls.iter().any(|c| c.looking.iter().any(|a| c.looking.iter().filter(|b| b.table == a.table).count() > 1)) {
         rep.probe("c10.ctl.repeated_looking_table(helper_columns)");
+        if sys.deg2.is_some() {
+            rep.probe("c10.ctl.repeated_looking_table_of_degree_2");
+        }
     }
     if sys.ctls.iter().any(|c| c.looking.len() > 1) {
         rep.probe("c10.ctl.several_looking_tables");
